@@ -20,7 +20,9 @@ FILES = ["base/src/utils/mod.rs", "base/src/utils/mem.rs", "base/src/utils/iter.
          "macros/src/items/enum_.rs", "macros/src/items/unsized_enum.rs", "macros/src/items/tag.rs", "portable/src/int.rs", "portable/src/float.rs"]
 RULES = [(r" < ", " <= "), (r" <= ", " < "), (r" > ", " >= "), (r" >= ", " > "), (r" \+ 1\b", ""), (r" - 1\b", ""),
          (r"\bceil_mul\(", "floor_mul("), (r"\bfloor_mul\(", "ceil_mul("), (r"\bmax\(", "min("), (r"\bmin\(", "max("),
-         (r"::ALIGN\b", "::SIZE"), (r"\bSelf::DATA_OFFSET\b", "Self::ALIGN"), (r" == 0\b", " != 0"), (r" != 0\b", " == 0")]
+         (r"::ALIGN\b", "::SIZE"), (r"\bSelf::DATA_OFFSET\b", "Self::ALIGN"), (r" == 0\b", " != 0"), (r" != 0\b", " == 0"),
+         (r"\bto_le_bytes\b", "to_be_bytes"), (r"\bto_be_bytes\b", "to_le_bytes"), (r"\bfrom_le_bytes\b", "from_be_bytes"), (r"\bfrom_be_bytes\b", "from_le_bytes"),
+         (r"<true, ", "<false, "), (r"<false, ", "<true, "), (r", true>", ", false>"), (r", false>", ", true>")]
 
 def sites():
     out = []
